@@ -44,7 +44,7 @@
 (***************************************************************************)
 EXTENDS Integers, FiniteSets, TLC
 
-CONSTANTS N, MaxView, H0, NH, InitSilentSets, MaxSilentChanges, Bug
+CONSTANTS N, MaxView, H0, NH, InitSilentSets, NextSilentSets, MaxSilentChanges, Bug
 
 F == (N - 1) \div 3
 M == N - F
@@ -179,7 +179,7 @@ Relay(v, u) ==
     /\ UNCHANGED got
 
 SetSilent(S) ==
-    /\ Cardinality(S) <= F /\ S # silent /\ sc < MaxSilentChanges
+    /\ S \in NextSilentSets /\ Cardinality(S) <= F /\ S # silent /\ sc < MaxSilentChanges
     /\ silent' = S /\ sc' = sc + 1
     /\ UNCHANGED <<st, msgs, got>>
 
@@ -187,7 +187,7 @@ Next ==
     \/ \E v \in Val : Timeout(v)
     \/ \E v \in Val, m \in msgs : Deliver(m, v)
     \/ \E v, u \in Val : Relay(v, u)
-    \/ \E S \in SUBSET Val : SetSilent(S)
+    \/ \E S \in NextSilentSets : SetSilent(S)
 
 Spec == Init /\ [][Next]_vars
 
